@@ -13,7 +13,7 @@ response. "Strictly sets" leaves out updates marked ignore-failure (C05: those a
 instead of failing the request).
 -/
 namespace Nri.Props.C01
-open Nri Nri.Api Nri.Result Nri.Ledger
+open Nri Nri.NApi Nri.Result Nri.Ledger
 
 /-- **C01.** If plugin `pi` and a later plugin `pj` both (strictly) set item `it` of
     container `c`, `pj` does not itself mark it for removal, and no plugin in between marks
@@ -116,7 +116,7 @@ example : isErr (run Quirks.fixed (initCreate { id := str "c0" })
 end Nri.Props.C01
 
 namespace Nri.Props.C01
-open Nri Nri.Api Nri.Result Nri.Ledger
+open Nri Nri.NApi Nri.Result Nri.Ledger
 
 /-- every plugin of the chain answers (the harness's chains: an unsubscribed or dropped
     plugin is simply absent) -/
